@@ -425,18 +425,19 @@ class Env:
         self.mutations = mutations or []
         self._mutants: dict[int, tuple] = {}
 
-    def mutant_pair(self, k: int):
+    def mutant_pair(self, k: int, scale: float = 1.0):
         """(in-process, subprocess) executors on sharing_registries() copies with mutant k
         (compiled like mutation_analysis.transformer.create_module: plain, uninstrumented)."""
-        if k not in self._mutants:
+        if k not in self._mutants or scale != 1.0:
             old, new = self.mutations[k]
             assert old in self.source, (self.name, old)
             src = self.source.replace(old, new, 1)
             mod = types.ModuleType(self.name)
             exec(compile(src, self.name, "exec"), mod.__dict__)  # noqa: S102
-            ine = self.mk(self.TestCaseExecutor, self.sp.sharing_registries())
-            sub = self.mk(self.SubprocessTestCaseExecutor, self.sp.sharing_registries())
-            self._mutants[k] = (ine, sub, mod)
+            mk = lambda cls: cls(self.sp.sharing_registries(),  # noqa: E731
+                                 maximum_test_execution_timeout=self.maxt * scale,
+                                 test_execution_time_per_statement=self.per * scale)
+            self._mutants[k] = (mk(self.TestCaseExecutor), mk(self.SubprocessTestCaseExecutor), mod)
             self.register_mutant(k)
         return self._mutants[k][:2]
 
@@ -479,12 +480,16 @@ def render_assertion(a) -> str:
 def project(result) -> dict:
     """Observable content of an ExecutionResult in the vocabulary of C31 (strings not interned:
     projections may come from worker processes)."""
+    if isinstance(result, Failed):
+        return {"to": False, "err": result.error, "ex": [], "ln": [], "co": [], "bt": [], "bf": [], "at": [],
+                "vt": []}
     tr = result.execution_trace
     vt = result.assertion_verification_trace
     v = [[int(p), int(i), 0] for p, idxs in vt.failed.items() for i in idxs]
     v += [[int(p), int(i), 1] for p, idxs in vt.error.items() for i in idxs]
     return {
         "to": bool(result.timeout),
+        "err": "",
         "ex": sorted([int(p), f"{type(e).__module__}.{type(e).__qualname__}"]
                      for p, e in result.exceptions.items()),
         "ln": sorted(int(x) for x in tr.covered_line_ids),
@@ -502,6 +507,8 @@ def roundtrips(result) -> list[bool]:
     import pickle  # noqa: PLC0415
 
     out = []
+    if isinstance(result, Failed):
+        return out
     for _, e in sorted(result.exceptions.items()):
         try:
             out.append(type(pickle.loads(pickle.dumps(e))) is type(e))  # noqa: S301
@@ -513,6 +520,7 @@ def roundtrips(result) -> list[bool]:
 def seal(raw: dict) -> dict:
     """Intern the strings of a projection: TLC compares small ints."""
     out = dict(raw)
+    out["err"] = INTERN(raw["err"]) if raw["err"] else 0
     out["ex"] = [[p, INTERN(name)] for p, name in raw["ex"]]
     out["at"] = [[p, [INTERN(a) for a in asserts]] for p, asserts in raw["at"]]
     return out
@@ -521,7 +529,8 @@ def seal(raw: dict) -> dict:
 def describe(proj: dict) -> dict:
     """Human readable form of a projection (for violation details and replay files)."""
     t = INTERN.table()
-    return {"timeout": proj["to"], "exceptions": {p: t[i] for p, i in proj["ex"]},
+    return {"timeout": proj["to"], "executor_raised": t.get(proj["err"], ""),
+            "exceptions": {p: t[i] for p, i in proj["ex"]},
             "n_lines": len(proj["ln"]), "pred_true": proj["bt"], "pred_false": proj["bf"],
             "assertions": {p: [t[i] for i in ids] for p, ids in proj["at"]},
             "verification": [[p, i, "failed" if k == 0 else "error"] for p, i, k in proj["vt"]]}
@@ -614,28 +623,58 @@ def observer(obs: str):
     return ato.RemoteAssertionTraceObserver() if obs == "trace" else ato.RemoteAssertionVerificationObserver()
 
 
+class Failed:
+    """Placeholder for a result an executor did not deliver because it raised."""
+
+    def __init__(self, exc: BaseException) -> None:
+        self.error = f"{type(exc).__name__}: {exc}"[:200]
+        self.timeout = False
+
+
+def _execute(executor, tests: list, single: bool) -> list:
+    """execute_multiple (or execute per test); an exception of the executor itself is recorded, the
+    test cases of the batch are then executed one by one to attribute it."""
+    if not single:
+        try:
+            return list(executor.execute_multiple(tests))
+        except Exception:  # noqa: BLE001
+            pass
+    out = []
+    for t in tests:
+        try:
+            out.append(executor.execute(t))
+        except Exception as ex:  # noqa: BLE001
+            out.append(Failed(ex))
+    return out
+
+
+def _tracer_of(executor):
+    return executor.subject_properties.instrumentation_tracer.tracer
+
+
 def run_both(inproc, sub, tests: list, obs: str, *, single: bool = False) -> tuple[list, list, list]:
     """Subprocess first (it leaves the SUT state of this process untouched), then in-process.
-    Returns (in-process results, subprocess results, observed protocol path)."""
+    The subprocess executor replaces the state of its tracer (import trace, thread state) by the
+    one the child sent; the state from before is put back, so that both executions start from the
+    same tracer state.  Returns (in-process results, subprocess results, observed protocol path)."""
     del PATH[:]
+    saved = _tracer_of(sub).state
     with sub.temporarily_add_remote_observer(observer(obs)):
-        if single:
-            rs = [sub.execute(t) for t in tests]
-        else:
-            rs = list(sub.execute_multiple(tests))
+        rs = _execute(sub, tests, single)
+    _tracer_of(sub).state = saved
     path = [list(e) for e in PATH]
     with inproc.temporarily_add_remote_observer(observer(obs)):
-        if single:
-            ri = [inproc.execute(t) for t in tests]
-        else:
-            ri = list(inproc.execute_multiple(tests))
+        ri = _execute(inproc, tests, single)
     return ri, rs, path
 
 
 def run_sub_only(sub, tests: list, obs: str) -> list:
     del PATH[:]
+    saved = _tracer_of(sub).state
     with sub.temporarily_add_remote_observer(observer(obs)):
-        return list(sub.execute_multiple(tests))
+        rs = _execute(sub, tests, False)
+    _tracer_of(sub).state = saved
+    return rs
 
 
 def event(kind: str, cfg: str, obs: str, mode: str, prog: list[dict], det: bool, cmp: list[str],
@@ -646,7 +685,7 @@ def event(kind: str, cfg: str, obs: str, mode: str, prog: list[dict], det: bool,
 
 
 def batch_event(label: str, path: list, mpath: list) -> dict:
-    empty = {"to": False, "ex": [], "ln": [], "co": [], "bt": [], "bf": [], "at": [], "vt": []}
+    empty = {"to": False, "err": "", "ex": [], "ln": [], "co": [], "bt": [], "bf": [], "at": [], "vt": []}
     return {"kind": "batch", "cfg": "A", "obs": "trace", "mode": "batch", "prog": [], "model": False,
             "det": False, "cmp": [], "i": empty, "s": empty, "label": label,
             "path": path, "mpath": mpath}
@@ -683,6 +722,6 @@ def run_scenario(args) -> dict:
                 continue
             if out["pi"][k]["to"] or out["ps"][k]["to"]:
                 spurious = True
-        if not spurious:
-            break
+        if not spurious and (out["path"] == beh.get("path", out["path"]) or attempt >= 1):
+            break        # a path other than the model's is tried once more (poll deadlines under load)
     return out
